@@ -20,6 +20,14 @@ CHECKS.update({
          "Every result/error of seeded call sequences over all methods is compared with the model, then both flush variants are read back with the real SSTable reader (Scan and Get, nil vs empty). Exploration over seeded programs; right level for a single-threaded in-memory structure.",
          "size estimate checked only for wrap-around (bounded by 4x bytes ever passed)", "§3 C14", "E1"),
 })
+CHECKS.update({
+ "C03": ("exploration", "reference-model monitor: sorted-map model vs real table reader for every index loader, compression pair, bloom sizing and buffer size",
+         "Generated tables (hostile keys incl. empty key and an index-dominating last key, nil/empty/marker-laden values) are written with both writers and opened with every index loader; Contains/Get on all keys and neighbours, full/starting-at/range scans on probe samples are compared with a sorted-map model. Exploration over the seeded table list x loader matrix.",
+         "map loader exercised only inside its documented fixed-width domain", "§3 C03", "E1"),
+ "C08": ("exploration", "reference-model monitor: latest-wins union model vs stacked reader and real merger over stacks of real tables",
+         "Stacks of 1..6 real tables with overlapping keys, tombstones and the empty key are built; stacked Get/Contains/scans, both compacting reductions (merged into a real table and read back) and the plain merge are compared with the union model. Exploration over seeded stacks.",
+         "tombstone = nil value; nil values are filtered from merged read-backs before comparison", "§3 C08", "E1"),
+})
 NOT_YET = {}
 props = [json.loads(l) for l in open(os.path.join(ROOT, "properties.jsonl"))]
 hooks_commits = []
